@@ -46,6 +46,9 @@ type EncCase struct {
 	TgtType string `json:"tgttype"`
 	Recut   int    `json:"recut"`
 	Big     int    `json:"big"` // extra long string attributes to force several frames
+	// Huge > 0: one more attribute whose rendered "Name = value" string is Huge bytes long (around and above the
+	// 1 MiB frame limit, where the string sender has to split one string over several frames)
+	Huge int `json:"huge,omitempty"`
 }
 
 const sentinel = 424242
@@ -93,6 +96,13 @@ func buildAd(c EncCase, st *encStats) (*classad.ClassAd, []string) {
 	}
 	for i := 0; i < c.Big; i++ {
 		add(fmt.Sprintf("Big%d", i), `"`+strings.Repeat("longvalue-", 900+i)+`"`)
+	}
+	if c.Huge > 0 {
+		// `HugeM = "xxx...x"`: 10 bytes of name, blanks, '=' and quotes around the filler (the name sorts into the
+		// middle of the ad, so other strings follow it on the wire)
+		if n := c.Huge - 10; n > 0 {
+			add("HugeM", `"`+strings.Repeat("h", n)+`"`)
+		}
 	}
 	setType := func(attr, v string) {
 		switch {
@@ -652,6 +662,35 @@ func TestC08DecodeRandom(t *testing.T) {
 			t.Fatalf("C08 violated: %s\ncase: %s", viol, js)
 		}
 	})
+}
+
+// TestC08Huge: an ad with one string attribute around and above the 1 MiB frame limit, followed by further
+// attributes and the type names, through every sender, plain and encrypted; all three receivers.
+func TestC08Huge(t *testing.T) {
+	const MiB = 1 << 20
+	bad := 0
+	n := 0
+	for _, sz := range []int{MiB - 40, MiB - 9, MiB - 8, MiB - 1, MiB, MiB + 1, MiB + 10, MiB + 4097, 2*MiB + 3} {
+		for sender := 0; sender < 4; sender++ {
+			for _, aes := range []bool{false, true} {
+				n++
+				if !kit.Thorough() && (n+sender)%3 != 0 {
+					continue
+				}
+				c := EncCase{AES: aes, Sender: sender, Huge: sz, MyType: "Machine", TgtType: []string{"", "Job"}[n%2], Recut: n * 7919,
+					Attrs: []Attr{{Name: "Alpha", Text: "1"}, {Name: "Zeta", Text: `"tail"`}, {Name: "Omega", Text: "Alpha + 2"}}}
+				v, st := runEnc(c)
+				ev.Case(fmt.Sprintf("huge/sender%d/aes=%v", sender, aes), fmt.Sprintf("huge:%d:%d:%v", sz, sender, aes))
+				ev.Count("attributes_compared", int64(st.compared))
+				if v != "" && bad < 4 {
+					bad++
+					kit.Violation("C08", v, c)
+					t.Errorf("C08 violated: %s", v)
+				}
+			}
+		}
+	}
+	ev.Exhaustive("an ad with one string attribute of 9 sizes around and above the 1 MiB frame limit x 4 senders x {plain, AES} (quick: a third of the product)")
 }
 
 func TestC08Replay(t *testing.T) {
